@@ -39,7 +39,22 @@ def drive(F3, alg, N, order=0):
             # history: the approximate (hull-based) areas are requested first; the exact areas asked for afterwards must still be exact
             calls.insert(order % 4, lambda: sv.get_voronoi_volumes(approx=True))
         from vlib.rec import call_and_hold
-        call_and_hold(calls, "C03.returned_object_stable")
+        before = sum(REC.monitors[m]["calls"] + REC.monitors[m]["skipped"] for m in DECIDING)
+        approx_first = len(calls) == 7
+        results = call_and_hold(calls, "C03.returned_object_stable")
+        if sum(REC.monitors[m]["calls"] + REC.monitors[m]["skipped"] for m in DECIDING) == before and N >= 4 and not approx_first:
+            # no RotobjVoronoi behind this grid: the property covers every direction grid with N >= 4, judge from the grid's own points
+            REC.notes["C03 judged at the grid level (no RotobjVoronoi behind the grid)"] += 1
+            P = np.asarray(g.get_grid_as_array(), dtype=float)
+            names = ["adjacency", "border_len", "center_distances", "areas", "adjacency", "center_distances"]
+            if order % 2:
+                names = names[::-1]
+            holder = type("Holder", (), {})()
+            for nm, res in zip(names, results):
+                if nm == "areas":
+                    geom3.judge_areas(P, res)
+                else:
+                    geom3.judge_points(P, res, nm, holder=holder)
         if N >= 5:
             REC.nontrivial_case((alg, N))
     except Exception as e:
